@@ -91,7 +91,7 @@ check(
 )
 check(
     "C18", "hyper",
-    "PARTIAL CLAIM - the discrete energy-balance clause and, on the visited states only, the Newton-system consistency clause. Seeded trajectories of free motion (clamped or free bodies; static preload and/or random initial velocity) under the midpoint scheme with the gonzalez stress, the adaptive quadrature stress (energyTol = 1e-10), fixed strain-path rules (1, 2, 3, 5 points: exactly conserving for Saint-Venant-Kirchhoff, whose dW/de is linear) and the pointwise stress (not conserving: consistency checks only), optionally with Kelvin-Voigt viscosity or an active fibre stress (non-conservative: consistency checks only), for NeoHookean, Mooney-Rivlin, Ciarlet-Geymonat, Saint-Venant-Kirchhoff and Holzapfel-Ogden (two fibre families, every term switched on) laws, step-size changes and density changes between steps (the energy constant is re-based at the change; the kinetic energy uses the first assembled mass scaled by the ratio of the densities, never a mass re-read from the simulation), Save_Iter / Set_Iter rollback and injected back-end failures inside a Newton iteration followed by a retry. Invariant after every step: |KE + W - E0| <= 1e-5 of the energy scale; a failed step leaves (u, v, a) untouched; rollback returns to the recorded energy. At trial states away from u_n along the trajectory: A = coefK K + coefC C + coefM M applied to a direction equals the central difference of the assembled residual (scheme, stress option and previous state included). On states of the trajectory: the internal force assembled by a brand-new static simulation, contracted with a random direction, equals the central difference of the total stored energy along it. At the reference state each run starts from: W = 0, zero internal force, the unloaded static solve does not move the body.",
+    "PARTIAL CLAIM - the discrete energy-balance clause and, on the visited states only, the Newton-system consistency clause. Seeded trajectories of free motion (clamped or free bodies; static preload and/or random initial velocity) under the midpoint scheme with the gonzalez stress, the adaptive quadrature stress (energyTol = 1e-10), fixed strain-path rules (1, 2, 3, 5 points: exactly conserving for Saint-Venant-Kirchhoff, whose dW/de is linear) and the pointwise stress (not conserving: consistency checks only), optionally with Kelvin-Voigt viscosity or an active fibre stress (non-conservative: consistency checks only), for NeoHookean, Mooney-Rivlin, Ciarlet-Geymonat, Saint-Venant-Kirchhoff and Holzapfel-Ogden (two fibre families, every term switched on) laws, step-size changes and density changes between steps (the energy constant is re-based at the change; the kinetic energy uses the first assembled mass scaled by the ratio of the densities, never a mass re-read from the simulation), Save_Iter / Set_Iter rollback and injected back-end failures inside a Newton iteration followed by a retry. Invariant after every step: |KE + W - E0| <= 1e-5 of the energy scale; a failed step leaves (u, v, a) untouched; rollback returns to the recorded energy. At trial states away from u_n along the trajectory: A = coefK K + coefC C + coefM M applied to a direction equals the central difference of the assembled residual (scheme, stress option and previous state included). On states of the trajectory: the internal force assembled by a brand-new static simulation, contracted with a random direction, equals the central difference of the total stored energy along it; the deformed body turned as a whole (x' = Q (X + u), random Q) has the same stored energy and internal forces turned by Q. At the reference state each run starts from: W = 0, zero internal force, the unloaded static solve does not move the body.",
     "NOT decided: stress = dW/de, tangent = d(stress)/de, objectivity (pure); tangent/residual consistency is checked only for the assembled Newton system on visited states, not per operator over all inputs. Runs with a non-converging or inverted step are discarded and counted. The mass matrix is the one the simulation assembles.",
     "deterministic simulation: seeded dynamic trajectories with fault injection, conserved-quantity oracle, ddmin-minimised replay files",
     "DESIGN.md section 5, C18",
